@@ -323,6 +323,12 @@ SUMMARIES.update(
         "asyncio.streams.StreamWriter.is_closing": Summary(NONE, "total"),
         "builtins.map": Summary(NONE, "lazy: the mapped repository function is analysed at the call (EEA.external)"),
         "builtins.filter": Summary(NONE, "lazy: the predicate is analysed at the call (EEA.external)"),
+        "_asyncio.Future.add_done_callback": Summary(NONE, "registers a callback"),
+        "_asyncio.Task.add_done_callback": Summary(NONE, "registers a callback"),
+        "builtins.set.discard": Summary(NONE, "total"),
+        "builtins.set.add": Summary(NONE, "total for hashable elements"),
+        "concurrent.futures._base.Executor.shutdown": Summary(NONE, "total"),
+        "concurrent.futures.thread.ThreadPoolExecutor.shutdown": Summary(NONE, "total"),
         "copy.copy": Summary(NONE, "shallow copy of repo objects"),
         "copy.deepcopy": Summary(_deepcopy_raises, "deepcopy recurses in Python frames (about two per nesting level): data of unbounded depth (Any - e.g. a parsed JSON document, which json.loads accepts far deeper than the interpreter's recursion limit allows here) raises RecursionError; repository objects and flat typed containers do not"),
         "tempfile.mkstemp": Summary([OSE], "file creation"),
